@@ -38,8 +38,8 @@ func (core *JApiCore) compileCore() *jerr.JApiError {
 }
 
 func (core *JApiCore) checkMacroForRecursion() *jerr.JApiError {
-	for macroName, macro := range core.macro {
-		if je := findPaste(macroName, macro); je != nil {
+	for _, macroName := range core.macroNames {
+		if je := findPaste(macroName, core.macro[macroName]); je != nil {
 			return je
 		}
 	}
